@@ -165,6 +165,22 @@ func streamConc(c *ctx) {
 					}
 				}(g, r.U64())
 			}
+			// one goroutine keeps asking for the device list and edits what it gets (it is the caller's to edit) while the
+			// others make their calls
+			wg.Add(1)
+			go func() {
+				defer wg.Done()
+				for i := 0; i < 20; i++ {
+					dl := u.DeviceList()
+					for k, v := range dl {
+						v.Name = "edited"
+						dl[k] = v
+						delete(dl, k+1)
+					}
+					dl[4999999] = uhppote.Device{DeviceID: 4999999}
+					time.Sleep(2 * time.Millisecond)
+				}
+			}()
 			// a second client, built WITHOUT a broadcast address (the default one is used: nobody answers there), used by
 			// four goroutines and a discovery at once: nothing it resolves at call time may be stored in the client
 			if bindMode == "0" {
